@@ -45,9 +45,34 @@ pub enum Curve {
 pub enum Key {
     Secp(Secp256k1PrivateKey),
     Ed(Ed25519PrivateKey),
+    /// an Ed25519 "key" nobody holds: a small-order point as public key, and as its "signature" over anything the
+    /// constant (R, s = 0) with R = the same point (kind 0) or the neutral element (kind 1)
+    Degenerate { pk: [u8; 32], sig: [u8; 64] },
+}
+/// key numbers from here on name degenerate keys: DEGENERATE_BASE + 10 * (index of the small-order point) + kind
+pub const DEGENERATE_BASE: u64 = 9_000_000;
+/// the 8 points of small order of edwards25519 (orders 1, 2, 4, 4, 8, 8, 8, 8), compressed
+pub const ED_TORSION: [&str; 8] = [
+    "0100000000000000000000000000000000000000000000000000000000000000",
+    "ecffffffffffffffffffffffffffffffffffffffffffffffffffffffffffff7f",
+    "0000000000000000000000000000000000000000000000000000000000000080",
+    "0000000000000000000000000000000000000000000000000000000000000000",
+    "c7176a703d4dd84fba3c0b760d10670f2a2053fa2c39ccc64ec7fd7792ac037a",
+    "c7176a703d4dd84fba3c0b760d10670f2a2053fa2c39ccc64ec7fd7792ac03fa",
+    "26e8958fc2b227b045c3f489f2ef98f0d5dfac05d3c63339b13802886d53fc05",
+    "26e8958fc2b227b045c3f489f2ef98f0d5dfac05d3c63339b13802886d53fc85",
+];
+pub fn ed_torsion(i: usize) -> [u8; 32] {
+    hex::decode(ED_TORSION[i]).unwrap().try_into().unwrap()
 }
 impl Key {
     pub fn new(curve: Curve, n: u64) -> Key {
+        if n >= DEGENERATE_BASE {
+            let pk = ed_torsion(((n - DEGENERATE_BASE) / 10) as usize);
+            let mut sig = [0u8; 64];
+            sig[..32].copy_from_slice(&if (n - DEGENERATE_BASE) % 10 == 0 { pk } else { ed_torsion(0) });
+            return Key::Degenerate { pk, sig };
+        }
         match curve {
             Curve::Secp => Key::Secp(Secp256k1PrivateKey::from_u64(n).unwrap()),
             Curve::Ed => Key::Ed(Ed25519PrivateKey::from_u64(n).unwrap()),
@@ -57,18 +82,21 @@ impl Key {
         match self {
             Key::Secp(k) => k.public_key().into(),
             Key::Ed(k) => k.public_key().into(),
+            Key::Degenerate { pk, .. } => Ed25519PublicKey(*pk).into(),
         }
     }
     pub fn sign_with_public_key(&self, h: &Hash) -> SignatureWithPublicKeyV1 {
         match self {
             Key::Secp(k) => SignatureWithPublicKeyV1::Secp256k1 { signature: k.sign(h) },
             Key::Ed(k) => SignatureWithPublicKeyV1::Ed25519 { public_key: k.public_key(), signature: k.sign(h) },
+            Key::Degenerate { pk, sig } => SignatureWithPublicKeyV1::Ed25519 { public_key: Ed25519PublicKey(*pk), signature: Ed25519Signature(*sig) },
         }
     }
     pub fn sign(&self, h: &Hash) -> SignatureV1 {
         match self {
             Key::Secp(k) => SignatureV1::Secp256k1(k.sign(h)),
             Key::Ed(k) => SignatureV1::Ed25519(k.sign(h)),
+            Key::Degenerate { sig, .. } => SignatureV1::Ed25519(Ed25519Signature(*sig)),
         }
     }
 }
@@ -505,6 +533,10 @@ pub fn with_builders(spec: &TxSpec, salt: u64) -> Option<RawNotarizedTransaction
     if spec.intents.iter().any(|it| it.sigs.iter().any(|s| s.over != Over::Own)) || spec.notary_sig.over != Over::Signed {
         return None;
     }
+    // degenerate keys have no private key: the builders cannot sign with them
+    if spec.intents.iter().any(|it| it.sigs.iter().any(|s| s.key >= DEGENERATE_BASE)) || spec.notary_sig.key >= DEGENERATE_BASE || spec.notary.1 >= DEGENERATE_BASE {
+        return None;
+    }
     let notary = Key::new(spec.notary_sig.curve, spec.notary_sig.key);
     if spec.ver == 1 {
         let it = &spec.intents[0];
@@ -513,11 +545,13 @@ pub fn with_builders(spec: &TxSpec, salt: u64) -> Option<RawNotarizedTransaction
             b = match Key::new(s.curve, s.key) {
                 Key::Secp(k) => b.sign(&k),
                 Key::Ed(k) => b.sign(&k),
+                Key::Degenerate { .. } => unreachable!(),
             };
         }
         b = match &notary {
             Key::Secp(k) => b.notarize(k),
             Key::Ed(k) => b.notarize(k),
+            Key::Degenerate { .. } => unreachable!(),
         };
         Some(b.build().to_raw().unwrap())
     } else {
@@ -536,6 +570,7 @@ pub fn with_builders(spec: &TxSpec, salt: u64) -> Option<RawNotarizedTransaction
                 b = match Key::new(s.curve, s.key) {
                     Key::Secp(k) => b.sign(&k),
                     Key::Ed(k) => b.sign(&k),
+                Key::Degenerate { .. } => unreachable!(),
                 };
             }
             b.build_minimal()
@@ -554,11 +589,13 @@ pub fn with_builders(spec: &TxSpec, salt: u64) -> Option<RawNotarizedTransaction
             b = match Key::new(s.curve, s.key) {
                 Key::Secp(k) => b.sign(&k),
                 Key::Ed(k) => b.sign(&k),
+                Key::Degenerate { .. } => unreachable!(),
             };
         }
         b = match &notary {
             Key::Secp(k) => b.notarize(k),
             Key::Ed(k) => b.notarize(k),
+            Key::Degenerate { .. } => unreachable!(),
         };
         Some(b.build_minimal_no_validate().to_raw().unwrap())
     }
